@@ -1,9 +1,10 @@
 SPECIFICATION Spec
 CONSTANTS MaxMono = 2
+ CoefSet <- Coefs3
  MaxOps = 1
  MaxSize = 12
  InitP <- UniverseP
- InitQ <- QSmall
+ InitQ <- QOne
  InitR <- RSmall
  Gens <- GensSmall
  Scalars <- ScalarsOne
@@ -14,4 +15,5 @@ INVARIANT NormalForm
 INVARIANT EvalCommutes
 INVARIANT EvalDefined
 INVARIANT RingLaws
+INVARIANT SeqDenotes
 CHECK_DEADLOCK FALSE
